@@ -87,7 +87,7 @@ CliResult run_cli(const std::vector<std::string> &args, const std::string &scrip
 		if (!sc->closed) fclose(in);
 		delete sc;
 	}
-	res.status = status;
+	res.status = status & 0xff;   // what a parent process sees: the low eight bits of main's result or of exit()'s argument
 	res.exited = how == 1;
 	res.budget = how == 2;
 	res.out.swap(oc->data);
